@@ -1756,12 +1756,12 @@ impl OutstationSession {
         controls: ControlCollection<'_>,
     ) -> Response {
         // Handle each operate and write the response
-        let (status, len) = {
+        let (result, len) = {
             let mut cursor = self.sol_tx_buffer.write_cursor();
             let _ = cursor.skip(ResponseHeader::LENGTH);
 
             // determine if we have a matching SELECT
-            let status = match self.state.select {
+            let result: Result<CommandStatus, scursor::WriteError> = match self.state.select {
                 Some(s) => {
                     match s.match_operate(
                         self.config.select_timeout,
@@ -1769,25 +1769,22 @@ impl OutstationSession {
                         frame_id,
                         controls.hash(),
                     ) {
-                        Err(status) => {
-                            controls.respond_with_status(&mut cursor, status).unwrap();
-                            status
-                        }
+                        Err(status) => controls
+                            .respond_with_status(&mut cursor, status)
+                            .map(|_| status),
                         Ok(()) => {
                             let max_controls_per_request = self.config.max_controls_per_request;
                             ControlTransaction::execute(
                                 self.control_handler.borrow_mut(),
                                 database,
                                 |tx, db| {
-                                    controls
-                                        .operate_with_response(
-                                            &mut cursor,
-                                            OperateType::SelectBeforeOperate,
-                                            tx,
-                                            db,
-                                            max_controls_per_request,
-                                        )
-                                        .unwrap()
+                                    controls.operate_with_response(
+                                        &mut cursor,
+                                        OperateType::SelectBeforeOperate,
+                                        tx,
+                                        db,
+                                        max_controls_per_request,
+                                    )
                                 },
                             )
                             .await
@@ -1796,18 +1793,19 @@ impl OutstationSession {
                 }
                 None => {
                     let status = CommandStatus::NoSelect;
-                    controls.respond_with_status(&mut cursor, status).unwrap();
-                    status
+                    controls
+                        .respond_with_status(&mut cursor, status)
+                        .map(|_| status)
                 }
             };
 
-            (status, cursor.written().len())
+            (result, cursor.written().len())
         };
 
         // Calculate IIN and return it
         let mut iin = Iin::default();
 
-        if status == CommandStatus::NotSupported {
+        if let Ok(CommandStatus::NotSupported) = result {
             iin |= Iin2::PARAMETER_ERROR;
         }
 
